@@ -273,7 +273,7 @@ fn top_level_fold<const N: usize>() {
 }
 #[kani::proof] #[kani::unwind(5)] pub(crate) fn top_level_fold_n0() { top_level_fold::<0>() }
 #[kani::proof] #[kani::unwind(5)] pub(crate) fn top_level_fold_n1() { top_level_fold::<1>() }
-#[kani::proof] #[kani::unwind(5)] pub(crate) fn slow_top_level_fold_n2() { top_level_fold::<2>() }
+#[kani::proof] #[kani::unwind(5)] pub(crate) fn deep_top_level_fold_n2()   /* > 15 min of CBMC (drain + enumerate + Fisher-Yates over a symbolic subset): in NO tier */ { top_level_fold::<2>() }
 
 // ---------------------------------------------------------------------------------------------- inline hooks
 /// StreamOrderHook (inline): the observed batch is a permutation of the input batch; the input slot is emptied.
@@ -369,3 +369,42 @@ fn top_level_merge<const N1: usize, const N2: usize>() {
 #[kani::proof] #[kani::unwind(5)] pub(crate) fn top_level_merge_0_2() { top_level_merge::<0, 2>() }
 #[kani::proof] #[kani::unwind(5)] pub(crate) fn top_level_merge_2_0() { top_level_merge::<2, 0>() }
 #[kani::proof] #[kani::unwind(5)] pub(crate) fn top_level_merge_2_2() { top_level_merge::<2, 2>() }
+
+// ---------------------------------------------------------------------------------------------- keyed hooks, ONE key (thorough tier)
+/// KeyedStreamHook<_, _, TotalOrder> over a real FxHashMap with ONE key (hashbrown is within CBMC's reach only for a single entry,
+/// DESIGN.md 14.4): the released batch is an in-order prefix of that key's queue, tagged with the key; nothing lost.
+#[kani::proof] #[kani::unwind(6)]
+pub(crate) fn probe_keyed_stream_total_order_one_key() {
+    const N: usize = 2;
+    let it = items::<N>();
+    let key: u8 = 7;
+    let mut q = VecDeque::new();
+    let mut i = 0;
+    while i < N { q.push_back(it[i]); i += 1; }
+    let mut map: FxHashMap<u8, VecDeque<u8>> = FxHashMap::default();
+    map.insert(key, q);
+    let input = Rc::new(RefCell::new(map));
+    let (tx, rx) = unbounded::<(u8, u8)>();
+    fn no_debug_kv(_: &(u8, u8)) -> Option<String> { None }
+    let mut h: KeyedStreamHook<u8, u8, TotalOrder> = KeyedStreamHook { input: input.clone(), to_release: None, output: tx, batch_location: LOC,
+                                                                      format_item_debug: no_debug_kv, _order: std::marker::PhantomData };
+    kani::assert(h.can_make_nontrivial_decision(), "C36:nontrivial_possible_iff_items_queued");
+    let force: bool = kani::any();
+    let mut d = HDriver;
+    let r = h.autonomous_decision(&mut Borrowed(&mut d), force);
+    let released: Vec<(u8, u8)> = h.to_release.clone().unwrap();
+    {
+        let m = input.borrow();
+        let left = m.get(&key).unwrap();
+        kani::assert(released.len() + left.len() == N, "C36:decision_conserves_item_count");
+        let mut i = 0;
+        while i < N {
+            let got = if i < released.len() { released[i] } else { (key, left[i - released.len()]) };
+            kani::assert(got == (key, it[i]), "C36:total_order_releases_a_prefix_in_order");
+            i += 1;
+        }
+    }
+    kani::assert(r == !released.is_empty() && h.current_decision() == Some(r), "C36:result_reports_whether_something_is_released");
+    kani::assert(!force || r, "C36:forced_decision_is_nontrivial");
+    std::mem::forget(h); std::mem::forget(rx); std::mem::forget(input);
+}
